@@ -60,6 +60,12 @@ structure Quirks where
   execIntoModuleGlobals : Bool := false
   /-- `QlassF.from_function`: `eval(name)` finds the function's own locals first -/
   evalSeesLocals : Bool := false
+  /-- call site: the formal bit an actual bit replaces is recovered from the actual's symbol name -/
+  argIndexFromName : Bool := false
+  /-- call site: `e.subs(subs, simultaneus=True)` (misspelt keyword) substitutes sequentially -/
+  subsSequential : Bool := false
+  /-- `bind_function.exp_rename` prefixes one free symbol after the other -/
+  renameSequential : Bool := false
   deriving Repr, DecidableEq, Inhabited
 
 def Quirks.none : Quirks := {}
@@ -90,6 +96,9 @@ def Quirks.ofList (l : List String) : Quirks :=
     groverMutatesOracle := l.contains "groverMutatesOracle"
     oraclizeRenames := l.contains "oraclizeRenames"
     execIntoModuleGlobals := l.contains "execIntoModuleGlobals"
-    evalSeesLocals := l.contains "evalSeesLocals" }
+    evalSeesLocals := l.contains "evalSeesLocals"
+    argIndexFromName := l.contains "argIndexFromName"
+    subsSequential := l.contains "subsSequential"
+    renameSequential := l.contains "renameSequential" }
 
 end QV
